@@ -426,10 +426,19 @@ class Wtp:
     def backup_db(self) -> None:
         self.backup_db_path.unlink(True)
         self.db_conn.commit()
-        backup_conn = sqlite3.connect(self.backup_db_path)
+        # Write the copy under another name and rename it when it is
+        # complete: an interrupted backup must not be mistaken for a backup
+        # (create_db installs whatever is found at backup_db_path).
+        tmp_path = self.backup_db_path.with_name(
+            self.backup_db_path.name + ".incomplete"
+        )
+        for suffix in ("", "-journal", "-wal", "-shm"):
+            Path(str(tmp_path) + suffix).unlink(True)
+        backup_conn = sqlite3.connect(tmp_path)
         with backup_conn:
             self.db_conn.backup(backup_conn)
         backup_conn.close()
+        tmp_path.rename(self.backup_db_path)
 
     def close_db_conn(self) -> None:
         assert self.db_path
